@@ -107,7 +107,7 @@ def render(doc: Doc) -> str:
             if len(w) > 2 and w[2]:
                 out.append("")  # blank line after the head
         elif k == "let":
-            out[-1] += "let"
+            out[-1] += "let" + (" " + w[3] if len(w) > 3 and w[3] else "")
             render_set(w[1], 0, out, as_let=True)
             out.append("in")
             # trivia between this layer's `in` and what it encloses
@@ -293,7 +293,8 @@ class DocGen:
                 prev = [w for w in wrappers if w[0] == "let"]
                 # now and then a layer with exactly the content of another one ("layers are never confused whatever their contents")
                 node = copy.deepcopy(r.choice(prev)[1]) if prev and r.random() < 0.2 else self.let_node()
-                wrappers.insert(pos, ("let", node, after))
+                let_comment = self.comment() if self.comments and self.after_in_trivia and r.random() < 0.12 else None
+                wrappers.insert(pos, ("let", node, after, let_comment))
         core = self.set_node(2)
         if wrappers and wrappers[-1][0] == "call" and wrappers[-1][1].endswith(" rec"):
             core.rec = False
